@@ -158,6 +158,10 @@ fn lobs(c: &SrtlaConnection) -> String {
         boolc(c.rtt.waiting_for_keepalive_response), c.rtt.last_keepalive_sent_ms,
         c.rtt.last_rtt_measurement_ms, boolc(k.3), fl(c.get_smooth_rtt_ms()))
 }
+fn pobs(c: &SrtlaConnection) -> String {
+    format!("(PO {} {} {} {} {} {})", boolc(c.connected), ou(c.last_received), c.verif_hidden().conn_timeout_ms,
+        c.rtt.last_rtt_measurement_ms, boolc(c.rtt.kalman_rtt.verif_state().3), fl(c.get_smooth_rtt_ms()))
+}
 fn kobs(c: &SrtlaConnection) -> String {
     let k = c.rtt.kalman_rtt.verif_state();
     flist(&[k.0, k.1, k.2[0], k.2[1], k.2[2], k.2[3]])
@@ -171,8 +175,15 @@ fn dump(c: &SrtlaConnection) -> String {
     let (fw, sw, sf) = c.rtt.verif_windows();
     format!("(DU {} {} {} {} {} {})", lobs(c), kobs(c), fobs(c), flist(&fw), flist(&sw), flist(&sf))
 }
+/// a byte string as (length, one hexadecimal numeral), unpacked inside Coq
+fn hexbytes(b: &[u8]) -> String {
+    let mut h = String::with_capacity(2 * b.len() + 8);
+    for x in b { h.push_str(&format!("{:02x}", x)); }
+    let t = h.trim_start_matches('0');
+    format!("{} 0x{}", b.len(), if t.is_empty() { "0" } else { t })
+}
 fn frame(b: &[u8]) -> String {
-    if b.len() <= 64 { format!("FB {}", bytes_lit(b)) } else { format!("FG {} {}", b.len(), bytes_lit(&b[..2])) }
+    if b.len() <= 64 { format!("FB {}", hexbytes(b)) } else { format!("FG {} {}", b.len(), bytes_lit(&b[..2])) }
 }
 
 // ---------- case generation ----------
@@ -220,7 +231,7 @@ impl Gen {
         if c.rtt.last_rtt_measurement_ms != before { self.samples += 1; run.count("echo:sample_taken"); }
         else if waiting && bytes.len() >= 2 && bytes[0] == 0x90 && bytes[1] == 0 { self.rejected += 1; run.count("echo:rejected_while_waiting"); }
         else if bytes.len() >= 2 && bytes[0] == 0x90 && bytes[1] == 0 { run.count("echo:no_probe_outstanding"); }
-        self.ops.push(format!("OPkt {} {} {}", i, bytes_lit(bytes), now));
+        self.ops.push(format!("OPkt {} (BH {}) {}", i, hexbytes(bytes), now));
         self.obs.push(format!("BPkt {} {} {} {} {}", pre, prek, lobs(c), kobs(c), fobs(c)));
         for j in 0..self.sim.conns.len() { let _ = self.sim.drain(j); }
     }
@@ -257,9 +268,16 @@ impl Gen {
             self.sim.fail[i].store(bad, Ordering::SeqCst);
             rcs.push(boolc(!bad).to_string());
             if c.connected && !c.is_timed_out(now) { self.live_ticks += 1; }
-            pres.push(lobs(c));
+            pres.push(pobs(c));
         }
         self.sim.tick(now, classic).await;
+        // telemetry is an input of the tick only: put unreachable extremes back so that the
+        // ACK paths (window + 1, C06's subject) are not driven from impossible states
+        for c in self.sim.conns.iter_mut() {
+            if c.window < 0 || c.window > 100_000 { c.window = 20_000; }
+            if c.in_flight_packets < 0 || c.in_flight_packets > 100_000 { c.in_flight_packets = 0; }
+            if c.congestion.nak_count < 0 || c.congestion.nak_count > 1_000_000 { c.congestion.nak_count = 0; }
+        }
         let mut per = vec![];
         for i in 0..n {
             let frames = self.sim.drain(i);
@@ -328,11 +346,12 @@ fn pick_ids(n: usize, r: &mut Rng) -> Vec<u64> {
 /// style: 0 steady (on-schedule ticks, echoing receivers), 1 mixed, 2 hostile (fuzz + resets),
 /// 3 silent receivers (timeouts, reconnect back-off), 4 tiny clock (t0 small: now <= 10 s)
 async fn gen_case(r: &mut Rng, run: &mut Run, style: u64, nticks: usize) -> std::io::Result<()> {
-    let n = 1 + r.below(4) as usize;
+    let n = *r.pick(&[1usize, 1, 1, 2, 2, 2, 2, 3, 3, 4]);
     let ids = pick_ids(n, r);
     let t0: u64 = match style {
         4 => *r.pick(&[0u64, 1, 1000, 4000]),
-        _ => *r.pick(&[1_000_000u64, 86_400_000, 1_700_000_000_000, (1 << 40) + 12345, (1u64 << 53) + 1]),
+        // short clocks keep the case text cheap to parse; one case in five runs on a realistic / huge clock
+        _ => *r.pick(&[20_000u64, 20_000, 20_000, 20_000, 100_000, 100_000, 100_000, 100_000, 86_400_000, 1_700_000_000_000, (1 << 40) + 12345, (1u64 << 53) + 1]),
     };
     let sim = Sim::new(&ids, t0).await?;
     let mut g = Gen { sim, now: t0, ops: vec![], obs: vec![], planned: vec![], recent: vec![],
@@ -403,17 +422,19 @@ async fn gen_case(r: &mut Rng, run: &mut Run, style: u64, nticks: usize) -> std:
 }
 
 pub fn run(seed: u64, tier: &str, out: &Path, extra: &[(String, String)]) -> std::io::Result<()> {
+    // a panic of the code under test aborts the run: say where
+    std::panic::set_hook(Box::new(|i| eprintln!("C14 harness: panic: {}", i)));
     let mut run = Run::new("C14", "Run_C14", seed, tier, out);
     let mut rng = Rng::new(seed ^ 0xC14C_14C1_4C14);
     let mut scale: f64 = 1.0;
     for (k, v) in extra { if k == "scale" { scale = v.parse().unwrap_or(1.0); } }
-    let ncases = ((if run.thorough() { 2600.0 } else { 260.0 }) * scale) as usize;
+    let ncases = ((if run.thorough() { 1100.0 } else { 110.0 }) * scale) as usize;
     let rt = tokio::runtime::Builder::new_current_thread().enable_all().build()?;
     let res: std::io::Result<()> = rt.block_on(async {
         for i in 0..ncases {
             let mut r = rng.fork(i as u64);
             let style = match r.below(20) { 0..=3 => 0, 4..=9 => 1, 10..=14 => 2, 15..=17 => 3, _ => 4 };
-            let nticks = match r.below(10) { 0 => 3 + r.below(5) as usize, 1..=6 => 10 + r.below(12) as usize, _ => 22 + r.below(18) as usize };
+            let nticks = match r.below(10) { 0 => 3 + r.below(5) as usize, 1..=7 => 8 + r.below(10) as usize, _ => 18 + r.below(14) as usize };
             gen_case(&mut r, &mut run, style, nticks).await?;
         }
         Ok(())
